@@ -57,6 +57,47 @@ Definition model_validate (tol : Q) (N : net) (varspace : bool) (v : vec) : list
 
 Definition is_v (c : list letter) : bool := match c with [Lv] => true | _ => false end.
 
+(* ill-conditioned step cases: some comparison of the guard is within rounding distance of its
+   threshold somewhere on the path the model takes; such cases are skipped ("away from guard
+   thresholds", DESIGN 4 C16)                                                                  *)
+Fixpoint near_lower (tol m : Q) (bnd : list ebound) (p : vec) : bool :=
+  match bnd, p with
+  | b :: bs, v :: vs =>
+      match b with Some q => Qle_bool (Qabs ((v - q) + tol)) (m * Qmax 1 (Qabs q)) | None => false end
+      || near_lower tol m bs vs
+  | _, _ => false
+  end.
+Fixpoint near_upper (tol m : Q) (bnd : list ebound) (p : vec) : bool :=
+  match bnd, p with
+  | b :: bs, v :: vs =>
+      match b with Some q => Qle_bool (Qabs ((q - v) + tol)) (m * Qmax 1 (Qabs q)) | None => false end
+      || near_upper tol m bs vs
+  | _, _ => false
+  end.
+
+Definition near_here (Sm : sampler) (rng : Q * Q) (delta p : vec) : bool :=
+  let P := s_prob Sm in let t := s_btol Sm in let m := 1 # 100000000000 in
+  near_lower t m (p_vlb P) p || near_upper t m (p_vub P) p ||
+  near_lower t m (p_ilb P) (mulv (p_ineq P) p) || near_upper t m (p_iub P) (mulv (p_ineq P) p) ||
+  (let a := if Qle_bool (Qabs (fst rng)) (Qabs (snd rng)) then Qabs (snd rng) else Qabs (fst rng) in
+   match qmax_list (map (fun d => Qabs (a * d)) delta) with
+   | Some mm => Qle_bool (Qabs (mm - t)) (t * (1 # 1000000))
+   | None => false end).
+
+Fixpoint near_threshold (fuel : nat) (Sm : sampler) (x delta : vec) (theta : Q) (retries : list (nat * Q)) : bool :=
+  let rng := alpha_range Sm x delta in
+  let alpha := Qred (fst rng + theta * (snd rng - fst rng)) in
+  let p := axpy alpha delta x in
+  near_here Sm rng delta p ||
+  (if negb (bounds_ok Sm p) || stuck Sm rng delta then
+     match fuel, retries with
+     | S fuel', (k, th) :: more =>
+         match nth_error (s_warmup Sm) k with
+         | Some w => near_threshold fuel' Sm (s_center Sm) (vsub w (s_center Sm)) th more
+         | None => false end
+     | _, _ => false end
+   else false).
+
 Fixpoint flags {A} (f : A -> bool) (l : list A) (i : nat) (code : nat) : list (nat * nat) :=
   match l with [] => [] | x :: r => (if f x then [] else [(i, code)]) ++ flags f r (S i) code end.
 
@@ -71,6 +112,8 @@ Definition check_case (c : case) : list (nat * nat) :=
       (if Nat.eqb (length rows) (length codes) then [] else [(0%nat, 1%nat)]) ++
       flags (fun rc => list_eqb letter_eqb (model_validate tol N vs (fst rc)) (snd rc)) (combine rows codes) 0 1
   | StepCase Sm x delta theta retries res eps =>
+      (* code 0 = skipped as ill-conditioned (counted by the harness, never a failure) *)
+      if near_threshold 102 Sm x delta theta retries then [(0%nat, 0%nat)] else
       match step Sm x delta theta retries, res with
       | Some p, Some q =>
           (if list_eqb (fun a b => approx eps b a) p q then [] else [(0%nat, 1%nat)]) ++
@@ -85,3 +128,4 @@ Definition check_case (c : case) : list (nat * nat) :=
 Definition failing (cases : list (Z * case)) : list (Z * list (nat * nat)) :=
   filter (fun r => match snd r with [] => false | _ => true end)
          (map (fun c => (fst c, check_case (snd c))) cases).
+
